@@ -735,3 +735,26 @@ package graphql
 //@   at `assign c.extensions` requires held
 //@   at! `assign c.extensions[*]` requires held && idx == key && rhs0 == value
 //@   modifies responseContext.extensions maps
+
+// ---------------------------------------------------------------- C08: UUID round trip, unmarshal side
+// Whatever MarshalUUID wrote is the canonical text of a 16-byte value; google/uuid parses every such text back
+// (trusted). UnmarshalUUID therefore accepts exactly what uuid.Parse / uuid.ParseBytes accept - it adds no
+// acceptance rule of its own (a version or variant filter would refuse values that marshal fine) - and refuses
+// everything that is neither a string nor bytes.
+//@ trusted github.com/google/uuid.Parse(s) (u, err)
+//@   nopanic
+//@   pure
+//@ trusted github.com/google/uuid.ParseBytes(b) (u, err)
+//@   nopanic
+//@   pure
+//@ func UnmarshalUUID [C08,C02]
+//@   nopanic
+//@   ghost perr = nil
+//@   ghost parsed = false
+//@   at? `uuid.Parse(v)` ghost perr = callres1
+//@   at? `uuid.Parse(v)` ghost parsed = true
+//@   at? `uuid.ParseBytes(v)` ghost perr = callres1
+//@   at? `uuid.ParseBytes(v)` ghost parsed = true
+//@   ensures parsed ==> res1 == perr
+//@   ensures !parsed ==> res1 != nil
+//@   ensures calls(Parse) + calls(ParseBytes) <= 1
